@@ -4,8 +4,8 @@ TRUST = ("Trusted: go/parser, go/types, x/tools v0.29.0; the idiom tables frozen
          "Only the named structural clauses are decided, for all paths/sites; value-level behaviour is not.")
 
 claim("C01",
-      "custom AST/type dataflow lint (stride-unit inference)",
-      "Structural necessary conditions of C01 decided for every function and path of the BLAS packages: no operand is indexed, sliced or forwarded with another operand's leading dimension / increment / Stride (STRIDE). A violation of this rule changes which elements are addressed whenever two operands have different strides, which the test suite almost never exercises. Arithmetic correctness of the loop nests is NOT decided.",
+      "AST unification of generated twins against their sources + custom AST/type dataflow lint (stride-unit inference)",
+      "Structural necessary conditions of C01 decided for every function and path of the BLAS packages: every generated (untested) S/C routine is the node-for-node image of its tested D/Z source (TWIN); no operand is indexed, sliced or forwarded with another operand's leading dimension / increment / Stride (STRIDE). A violation of this rule changes which elements are addressed whenever two operands have different strides, which the test suite almost never exercises. Arithmetic correctness of the loop nests is NOT decided.",
       TRUST, "DESIGN.md §3.2, §4 C01")
 
 claim("C02",
@@ -17,7 +17,7 @@ claim("C03",
       "The same rule set as C02 on the eigenvalue/Schur/SVD routine files and shared auxiliaries (found and repaired the Dlaln2 ldb/ldx defect and the missing Dgebd2 length check). Orthogonality, residual identities, ordering and convergence are NOT decided.",
       TRUST, "DESIGN.md §3.2, §3.3, §4 C03")
 claim("C04",
-      "custom AST/type dataflow lint (Data/Stride access-path pairing)",
+      "custom AST/type dataflow lint (Data/Stride access-path pairing) + AST twin comparison (reuseAs sync pairs, bounds twins) + configuration sweep",
       "Structural necessary condition of C04 decided for every function of mat: each Data[...] access and each (Data, Stride) pair given to blas64/lapack64 uses the stride of the same matrix, so a strided view is addressed with its own stride on every path. Agreement of dispatch arms with the generic definition is NOT decided.",
       TRUST, "DESIGN.md §3.2, §4 C04")
 claim("C07",
@@ -25,8 +25,13 @@ claim("C07",
       "The mostly structural property: for all 281 exported BLAS/LAPACK entry points and every prologue path, no argument-check panic is reachable after an operand write, every slice use is dominated on all paths by a branch on its length, every int/flag/slice parameter is validated (exceptions frozen with reasons), and no operand is addressed with another's stride. In-bounds behaviour of assembly given correct lengths and exactness of each extent expression are NOT decided here.",
       TRUST, "DESIGN.md §3.3, §4 C07")
 
+claim("C08",
+      "configuration sweep through the type checker + exported-API diff; element-wise AST twin comparison; stride-unit lint",
+      "The 'in every build configuration' clause decided statically: every tag/arch configuration of the packages with build-tag twins type-checks and exports one API; the r3 safe/unsafe 3x3 builders agree element by element; Go kernels address each operand with its own increment. Equality of assembly or noasm loops with the scalar definitions is NOT decided.",
+      TRUST, "DESIGN.md §3.1, §3.11, §4 C08")
+
 PENDING = "check not built yet in this round (see DESIGN.md §8 build order); not claimed until it is"
-for p in ["C05","C06","C08","C09","C12","C16","C17","C18","C19"]:
+for p in ["C05","C06","C09","C12","C16","C17","C18","C19"]:
     na(p, PENDING)
 
 na("C10", "every clause is an identity between floating-point values of different calls (permutation/affine invariance, quantile coherence, PSD-ness); no clause is visible in the shape of the code, so no sound static rule applies")
